@@ -1322,8 +1322,15 @@ class Bpsec(AbstractApplication):
         # Report status reason
         failure = []
 
-        confidential_blocks = ctr.block_type(BlockConfidentialityBlock)
+        # All blocks of the type, including those which failed to decode.
+        # Copy the list because accepted blocks are removed while iterating.
+        type_code = BlockConfidentialityBlock._overload_fields[CanonicalBlock]['type_code']
+        confidential_blocks = list(ctr.block_type(type_code))
         for bcb in confidential_blocks:
+            if not isinstance(bcb.payload, BlockConfidentialityBlock):
+                LOGGER.warning('BCB in block num %s cannot be decoded', bcb.block_num)
+                failure.append(StatusReport.ReasonCode.FAILED_SEC)
+                continue
             LOGGER.debug('Verifying BCB in %d with context %s, targets %s',
                          bcb.block_num, bcb.payload.context_id, bcb.payload.targets)
 
@@ -1335,7 +1342,9 @@ class Bpsec(AbstractApplication):
                 try:
                     result = ctx.verify_bcb(ctr, bcb)
                 except Exception as err:
-                    result = f'Failed to verify BCB in block num {bcb.block_num} with context {bcb.payload.context_id}: {err}'
+                    LOGGER.warning('Failed to verify BCB in block num %s with context %s: %s',
+                                   bcb.block_num, bcb.payload.context_id, err)
+                    result = StatusReport.ReasonCode.FAILED_SEC
 
             if result is not None:
                 failure.append(result)
@@ -1357,8 +1366,15 @@ class Bpsec(AbstractApplication):
         # Report status reason
         failure = []
 
-        integ_blocks = ctr.block_type(BlockIntegrityBlock)
+        # All blocks of the type, including those which failed to decode.
+        # Copy the list because accepted blocks are removed while iterating.
+        type_code = BlockIntegrityBlock._overload_fields[CanonicalBlock]['type_code']
+        integ_blocks = list(ctr.block_type(type_code))
         for bib in integ_blocks:
+            if not isinstance(bib.payload, BlockIntegrityBlock):
+                LOGGER.warning('BIB in block num %s cannot be decoded', bib.block_num)
+                failure.append(StatusReport.ReasonCode.FAILED_SEC)
+                continue
             LOGGER.debug('Verifying BIB in %d with context %s, targets %s',
                          bib.block_num, bib.payload.context_id, bib.payload.targets)
 
@@ -1370,7 +1386,9 @@ class Bpsec(AbstractApplication):
                 try:
                     result = ctx.verify_bib(ctr, bib)
                 except Exception as err:
-                    result = f'Failed to verify BIB in block num {bib.block_num} with context {bib.payload.context_id}: {err}'
+                    LOGGER.warning('Failed to verify BIB in block num %s with context %s: %s',
+                                   bib.block_num, bib.payload.context_id, err)
+                    result = StatusReport.ReasonCode.FAILED_SEC
             if result is not None:
                 failure.append(result)
 
